@@ -79,14 +79,20 @@ def obligations(tier, seed):
     # labels of grid units: compile-time constants compared with the documented grammar
     labels = [('km', 'au::Kilo<au::Meters>', 'km'), ('m_per_s', 'au::UnitQuotientT<au::Meters, au::Seconds>', 'm / s'),
               ('m2', 'au::UnitPowerT<au::Meters, 2>', 'm^2'), ('scaled', 'decltype(au::Meters{} * au::mag<1000>())', '[1000 m]'),
+              ('scaled_2_63', 'decltype(au::Meters{} * au::mag<9223372036854775808ULL>())', '[9223372036854775808 m]'),
+              ('scaled_max', 'decltype(au::Meters{} * au::mag<18446744073709551615ULL>())', '[18446744073709551615 m]'),
+              ('scaled_inv', 'decltype(au::Meters{} / au::mag<1000>())', '[(1 / 1000) m]'),
+              ('scaled_rat', 'decltype(au::Meters{} * au::mag<3>() / au::mag<4>())', '[(3 / 4) m]'),
               ('itoa', None, '-12345678901'), ('uitoa', None, '18446744073709551615')]
     for (nm, ty, text) in labels:
         if ty is None:
-            expr = 'au::detail::IToA<-12345678901LL>::value' if nm == 'itoa' else 'au::detail::UIToA<18446744073709551615ULL>::value'
-            w = Wrapper('w_label_' + nm, 'char', [('uint64_t', 'k')], 'static_assert(sizeof(%s.char_array()) == %d, "size"); return %s.c_str()[k %% %d];' % (expr, len(text) + 1, expr, len(text) + 1))
+            expr = 'au::detail::IToA<-12345678901LL>::value.char_array()' if nm == 'itoa' else 'au::detail::UIToA<18446744073709551615ULL>::value.char_array()'
         else:
-            w = Wrapper('w_label_' + nm, 'char', [('uint64_t', 'k')], 'static_assert(sizeof(au::unit_label<%s>()) == %d, "size"); return au::unit_label<%s>()[k %% %d];' % (ty, len(text) + 1, ty, len(text) + 1))
-        checks = '\n'.join("  CHECK(%s(%d) == %d, \"char-%d\");" % (w.name, i, ord(ch), i) for i, ch in enumerate(text + '\0'))
-        obs.append(Ob(id='C18.label.%s' % nm, prop='C18', group='C18.label', prelude=PRE, wrappers=[w], inputs=[], body='\n' + checks + '\n',
+            expr = 'au::unit_label<%s>()' % ty
+        w = Wrapper('w_label_' + nm, 'char', [('uint64_t', 'k')], 'return %s[k %% sizeof(%s)];' % (expr, expr))
+        wsz = Wrapper('w_labelsize_' + nm, 'uint64_t', [], 'return sizeof(%s);' % expr)
+        checks = ['  CHECK(%s() == %d, "reported-size-is-length-plus-1");' % (wsz.name, len(text) + 1)]
+        checks += ["  CHECK(%s(%d) == %d, \"char-%d\");" % (w.name, i, ord(ch), i) for i, ch in enumerate(text + '\0')]
+        obs.append(Ob(id='C18.label.%s' % nm, prop='C18', group='C18.label', prelude=PRE, wrappers=[w, wsz], inputs=[], body='\n' + '\n'.join(checks) + '\n',
                       contract='label constant == "%s" with reported size %d (NUL terminated)' % (text, len(text) + 1), functions_under_contract=('au::unit_label / IToA / UIToA (constant data)',)))
     return obs
